@@ -52,7 +52,10 @@ def run_recipes(chk, recipes):
     obs = [json.loads(x) for x in out.splitlines() if x.strip()]
     if len(obs) != len(recipes):
         raise vlib.Inconclusive("c14-run returned %d observations for %d recipes" % (len(obs), len(recipes)))
-    bad = chk.validate("StlLoaderTrace", obs, timeout=1800, chunk_size=4000)
+    skipped = sum(1 for o in obs if o["out"] == "Skipped")
+    if skipped:
+        chk.cov["files_not_loaded_after_12_hangs"] = chk.cov.get("files_not_loaded_after_12_hangs", 0) + skipped
+    bad = chk.validate("StlLoaderTrace", [o for o in obs if o["out"] != "Skipped"], timeout=1800, chunk_size=4000)
     for e, why in bad:
         if why.startswith("harness-"):
             raise vlib.Inconclusive("concretisation problem (%s) for recipe %s" % (why, json.dumps(e["recipe"])))
@@ -151,7 +154,7 @@ def run(chk, replay):
                 raise vlib.Inconclusive("rejected observation did not reproduce: %s (%s)" % (rk, why))
             chk.violation(k, describe(e, why), dict(recipe=e["recipe"], why=why))
     # ---- model counter-examples (predicted Panic) against the real code (verdict rule 2)
-    flagged = [o for o, p in zip(obs[:nabs], preds) if p == "Panic"]
+    flagged = [o for o, p in zip(obs[:nabs], preds) if p == "Panic" and o["out"] != "Skipped"]
     reproduced = [o for o in flagged if o["out"] == "Panic"]
     if flagged and not reproduced:
         others = [o for o in flagged if o["out"] not in ("Err", "Mesh")]
